@@ -6,6 +6,7 @@ from libcst import SimpleStatementLine, ensure_type, matchers
 from libcst.codemod import CodemodContext, ContextAwareVisitor
 from libcst.metadata import (
     BuiltinAssignment,
+    FunctionScope,
     ParentNodeProvider,
     PositionProvider,
     ScopeProvider,
@@ -292,12 +293,22 @@ class ResourceLeakFixer(MetadataPreservingTransformer, NameAndAncestorResolution
             )
         return updated_node
 
+    def _accesses(self, name: cst.Name) -> set:
+        """
+        Accesses of `name` in its own scope and in the scopes it encloses (comprehensions, lambdas, inner functions).
+        """
+        accesses = set(self.find_accesses(name))
+        if scope := self.get_metadata(ScopeProvider, name, None):
+            for assignment in scope[name.value]:
+                accesses |= set(assignment.references)
+        return accesses
+
     def _find_last_index_with_access(
         self, named_targets, block, index
     ) -> Optional[int]:
         last_index = None
         for name in named_targets:
-            accesses = self.find_accesses(name)
+            accesses = self._accesses(name)
             for node in (access.node for access in accesses):
                 last_index_for_node = (index + 1) + self._last_ancestor_index(
                     node, block.body[index + 1 :]
@@ -360,7 +371,7 @@ class ResourceLeakFixer(MetadataPreservingTransformer, NameAndAncestorResolution
         """
         Checks if close is called for a given name.
         """
-        accesses = self.find_accesses(name)
+        accesses = self._accesses(name)
         for node in (a.node for a in accesses):
             # is node.close() or node.__exit__
             maybe_name = self.has_attr_called(node)
@@ -377,7 +388,13 @@ class ResourceLeakFixer(MetadataPreservingTransformer, NameAndAncestorResolution
     def _name_escapes_scope(
         self, name: cst.Name, block: cst.Module | cst.IndentedBlock, index: int
     ) -> bool:
-        accesses = self.find_accesses(name)
+        accesses = self._accesses(name)
+        for access in accesses:
+            # read by a lambda or inner function, which may run after the block
+            if isinstance(access.scope, FunctionScope) and access.scope is not (
+                self.get_metadata(ScopeProvider, name, None)
+            ):
+                return True
         for node in (a.node for a in accesses):
             # returned or yielded
             if self.is_return_value(node) or self.is_yield_value(node):
